@@ -5,7 +5,7 @@ P=$1; PROP=$2
 cd /repo && git apply $P || { echo "PATCH DOES NOT APPLY to /repo"; exit 2; }
 cd /verif && ./bin/govc check --property $PROP --evidence-dir /tmp/seedev-$PROP 2>&1 | grep -v "^  obligation" | tail -8
 rc=${PIPESTATUS[0]}
-cd /repo && git checkout -q -- . 
+cd /repo && git apply -R $P
 rm -rf /tmp/seedev-$PROP
 git -C /repo status --short | grep -v muinstaller | head -3
 exit $rc
